@@ -46,6 +46,9 @@ PROBES = ["threshold moved between rounds", "card skipped then taken later", "co
 def generate(rng, tier):
     cfg = TIERS[tier]
     case = G.gen_case(rng, max_cards=cfg["max_cards"], max_rounds=6, allow_style_off=True)
+    tally_ok = (case["world"]["audit_type"] != W.POLLING and
+                all(c["choice_function"] in (W.PLURALITY, W.APPROVAL) for c in case["world"]["contests"].values()))
+    case["margins_via_tally"] = bool(tally_ok and rng.chance(0.4))
     if len(case["rounds"]) < 2:
         r0 = case["rounds"][0]
         r1 = copy.deepcopy(r0)
